@@ -72,6 +72,12 @@ example :
      | .ok p => some (p.isMatch "-x".toList, p.isMatch "bx".toList)
      | .error _ => none) = some (true, false) := by decide
 
+/-- non-vacuity: `[![.ch.]]` (all items multi-character, F8) compiles, matches `q` and not `ch` -/
+example :
+    (match Pattern.fromAst [.bracket ⟨true, [.atom (.collating ['c', 'h'])]⟩] caseConfig with
+     | .ok p => some (p.isMatch "q".toList, p.isMatch "ch".toList)
+     | .error _ => none) = some (true, false) := by decide
+
 /-! ## ★ quoted characters match only themselves -/
 
 /-- ★ A pattern made of quoted (`Literal`) characters only is the literal string: it always compiles (fast
@@ -123,12 +129,12 @@ theorem invalid_pattern_fallbacks (pcs : List PatternChar) :
       caseFirst.go subj i (pcs :: rest) = caseFirst.go subj (i + 1) rest) :=
   Proofs.invalid_pattern_fallbacks pcs
 
-/-- non-vacuity: `[[:nothing:]]`, `[z-a]`, `[[:digit:]-9]`, `[![.ch.]]` do not compile -/
+/-- non-vacuity: `[[:nothing:]]`, `[z-a]`, `[[:digit:]-9]`, `[[..]]` do not compile -/
 example :
     (Pattern.fromAst [.bracket ⟨false, [.atom (.cls "nothing".toList)]⟩] caseConfig).toOption.isNone ∧
     (Pattern.fromAst [.bracket ⟨false, [.range (.char 'z') (.char 'a')]⟩] caseConfig).toOption.isNone ∧
     (Pattern.fromAst [.bracket ⟨false, [.range (.cls "digit".toList) (.char '9')]⟩] caseConfig).toOption.isNone ∧
-    (Pattern.fromAst [.bracket ⟨true, [.atom (.collating ['c', 'h'])]⟩] caseConfig).toOption.isNone := by
+    (Pattern.fromAst [.bracket ⟨false, [.atom (.collating [])]⟩] caseConfig).toOption.isNone := by
   decide
 
 /-! ## ★ `case` runs the first item with a matching pattern -/
